@@ -26,6 +26,9 @@ type FakeProxy struct {
 	// StorePuts makes uploads visible to later Gets (a real backend).
 	StorePuts bool
 	open      int // readers handed out and not yet closed
+	// ReadHook, if set, is called from inside the stream handed to the cache
+	// before each Read (bytes delivered so far): crash points / interleavings.
+	ReadHook func(kind cache.EntryKind, hash string, delivered int)
 }
 
 type proxyObject struct {
@@ -150,6 +153,8 @@ func (p *FakeProxy) Put(ctx context.Context, kind cache.EntryKind, hash string, 
 
 type proxyReader struct {
 	p      *FakeProxy
+	kind   cache.EntryKind
+	hash   string
 	r      io.Reader
 	errAt  int
 	read   int
@@ -157,6 +162,9 @@ type proxyReader struct {
 }
 
 func (r *proxyReader) Read(b []byte) (int, error) {
+	if h := r.p.ReadHook; h != nil {
+		h(r.kind, r.hash, r.read)
+	}
 	if r.errAt > 0 {
 		left := r.errAt - r.read
 		if left <= 0 {
@@ -215,7 +223,7 @@ func (p *FakeProxy) Get(ctx context.Context, kind cache.EntryKind, hash string, 
 	p.mu.Lock()
 	p.open++
 	p.mu.Unlock()
-	return &proxyReader{p: p, r: bytes.NewReader(raw), errAt: pl.ErrAt}, sz, nil
+	return &proxyReader{p: p, kind: kind, hash: hash, r: bytes.NewReader(raw), errAt: pl.ErrAt}, sz, nil
 }
 
 func (p *FakeProxy) Contains(ctx context.Context, kind cache.EntryKind, hash string, size int64) (bool, int64) {
